@@ -119,6 +119,22 @@ def run_mc(module, cfg, workers=8, expect_violation=False, consts=None, tag=None
     return r
 
 
+def run_tlapm(module, timeout=600):
+    """TLAPS proof of unbounded lemmas (spec/proofs); the fingerprint cache is kept out of the tree"""
+    import re
+    cache = os.path.join(WORK, "tlapm-cache")
+    shutil.rmtree(cache, ignore_errors=True)
+    os.makedirs(cache, exist_ok=True)
+    t0 = time.time()
+    rc, out = run(["timeout", str(timeout), "tlapm", "--threads", "4", "--cache-dir", cache, module], cwd=os.path.join(SPEC, "proofs"), timeout=timeout + 60)
+    shutil.rmtree(cache, ignore_errors=True)
+    m = re.search(r"All (\d+) obligations? proved", out)
+    if not m:
+        log(out[-3000:])
+        raise ToolError("TLAPS did not prove every obligation of proofs/%s" % module)
+    return {"module": "proofs/" + module, "prover": "tlapm", "obligations": int(m.group(1)), "discharged": int(m.group(1)), "wall_s": round(time.time() - t0, 1)}
+
+
 def run_apalache(module, inv, length, timeout=900):
     """bounded symbolic check with Apalache (integers are symbolic: every value, not an enumerated few)"""
     outdir = os.path.join(WORK, "apalache")
